@@ -39,7 +39,7 @@ func main() {
 	r := ev.Start("C14")
 	defer r.FinishOnPanic()
 	e = &enum.E{R: r}
-	maxLen := ev.Pick(r, 5, 7)
+	maxLen := ev.Pick(r, 5, 8)
 	var all [][]int
 	var gen func(cur []int)
 	gen = func(cur []int) {
